@@ -168,7 +168,7 @@ theorem cited_sites_exist :
       (· ∈ thm_names% [Kit.C07.aeskw_wrap_sites, Kit.C07.aeskw_unwrap_sites, Kit.C07.arrXor_sites,
         Kit.C07.arrConcat_sites, Kit.C07.decodeString_reflect_sites, Kit.C07.decodeMetadata_reflect_sites,
         Kit.C07.resolveAliases_reflect_sites, Kit.C07.newAESCBCAEAD_sites, Kit.C07.growDst_sites,
-        Kit.C07.verifyEd25519_sites, Kit.C07.typeElem_sites, Kit.C07.hmacTag_sites]) = true := by
+        Kit.C07.verifyEd25519_sites, Kit.C07.typeElem_sites, Kit.C07.hmacTag_sites, Kit.C07.unwrapIface_terminates]) = true := by
   decide +kernel
 
 end Kit.C07
